@@ -75,6 +75,28 @@ def nxNodes (g : NxGraph) : List Nat := dedup (g.edges.flatMap (fun e => [e.1, e
 def nxNeighbors (g : NxGraph) (n : Nat) : List Nat :=
   dedup (g.edges.filterMap (fun e => if e.1 = n then some e.2 else if e.2 = n then some e.1 else none))
 
+/-- networkx `EdgeView.__iter__` (`seen = {}; for n, nbrs in adjacency: for nbr in nbrs: if nbr not in seen: yield (n, nbr); seen[n] = 1`):
+    `seen` = the nodes already completed -/
+def nxEdgesFrom (g : NxGraph) : List Nat → List Nat → List (Nat × Nat)
+  | [], _ => []
+  | n :: rest, seen =>
+      ((nxNeighbors g n).filter (fun m => !seen.contains m)).map (fun m => (n, m)) ++ nxEdgesFrom g rest (n :: seen)
+
+/-- `list(g.edges)`: for every node `n` in the order of `g.nodes`, `(n, m)` for every neighbour `m` of `n` (in the order of `g.adj[n]`)
+    that is not a node already completed — every undirected edge once, seen from its first-listed end point; a self-loop once, as `(n, n)` -/
+def nxEdges (g : NxGraph) : List (Nat × Nat) := nxEdgesFrom g (nxNodes g) []
+
+/-- `xs.remove(v)` on a list: the first occurrence of `v` is removed; `none` = ValueError (`v` is not in `xs`) -/
+def listRemove? {α} [DecidableEq α] (xs : List α) (v : α) : Option (List α) :=
+  if xs.contains v then some (xs.erase v) else none
+
+/-- `list(dict.fromkeys(xs).keys())` = `list(dict.fromkeys(xs))`: the distinct values of `xs` in first-seen order (dicts keep
+    insertion order; a key seen again keeps its first position) -/
+def fromkeysList {α} [DecidableEq α] (xs : List α) : List α := dedup xs
+
+/-- `xs.index(v)` on a list: the position of the first occurrence of `v`; `none` = ValueError (`v` is not in `xs`) -/
+def listIndex? {α} [DecidableEq α] (xs : List α) (v : α) : Option Nat := indexOf? xs v
+
 /-- `itertools.combinations(xs, 2)`: `(xs[i], xs[j])` for `i < j`, in lexicographic order of `(i, j)` -/
 def combinations2 {α} : List α → List (α × α)
   | [] => []
@@ -319,5 +341,74 @@ def calcAngles (bonds : List (Nat × Nat)) : List (List Nat) :=
       angles
       )
   angles
+
+/-- translated from `calc_dihedrals` in mofun/rough_uff.py; `bonds` is the list of the rows of the (n, 2) array; the result is the list of the rows `(a1, a, b, b1)` in the order they are appended; `none` = ValueError of `list.remove` (the equivalence theorem shows it does not happen) -/
+def calcDihedrals (bonds : List (Nat × Nat)) : Option (List (List Nat)) := do
+  let g : Py6.NxGraph := Py6.nxEmpty
+  let g : Py6.NxGraph := (Py6.nxAddEdges g bonds)
+  let dihedrals : List (List Nat) := []
+  let dihedrals ← Py.forFoldM? (Py6.nxEdges g) dihedrals (fun dihedrals (a, b) => do
+      let a_neighbors : List Nat := (Py6.nxNeighbors g a)
+      let a_neighbors ← (Py6.listRemove? a_neighbors b)
+      let b_neighbors : List Nat := (Py6.nxNeighbors g b)
+      let b_neighbors ← (Py6.listRemove? b_neighbors a)
+      let dihedrals : List (List Nat) := (dihedrals ++ (List.flatten (List.map (fun a1 => (List.map (fun b1 => [a1, a, b, b1]) b_neighbors)) a_neighbors)))
+      pure dihedrals
+      )
+  pure dihedrals
+
+/-- translated from `assign_bond_types` in mofun/rough_uff.py (FRAGMENT: the type-numbering slice — the `exclude` guard (`len(exclude) >= 2`, exclude a python set) with `delete_if_all_in_set`, the keys `typekey([uff_atom_types[a] for a in atup])`, their first-seen unique list, the position of every key in it; the result is (atoms.bonds, atoms.bond_types) right after the assignment of atoms.bond_types; `none` = IndexError of `uff_atom_types[a]` / ValueError of `list.index`) -/
+def assignBondTypeIds (atoms_bonds : List (List Nat)) (uff_atom_types : List String) (exclude : Option (List Nat)) : Option ((List (List Nat)) × (List Nat)) := do
+  match exclude with
+  | some exclude =>
+    if (Py.setLen exclude) ≥ 2 then
+      let atoms_bonds' : List (List Nat) := (Code.deleteIfAllInSet atoms_bonds exclude)
+      let t3 ← (Py.listMapM? atoms_bonds' (fun atup => (do let t2 ← (Py.listMapM? atup (fun a => (do let t1 ← (uff_atom_types[a]?); pure t1))); pure (Code.typekey t2))))
+      let bond_types : List (List String) := t3
+      let unique_bond_types : List (List String) := (Py6.fromkeysList bond_types)
+      let t5 ← (Py.listMapM? bond_types (fun bt => (do let t4 ← (Py6.listIndex? unique_bond_types bt); pure t4)))
+      let atoms_bond_types' : List Nat := t5
+      pure (atoms_bonds', atoms_bond_types')
+    else
+      let t8 ← (Py.listMapM? atoms_bonds (fun atup => (do let t7 ← (Py.listMapM? atup (fun a => (do let t6 ← (uff_atom_types[a]?); pure t6))); pure (Code.typekey t7))))
+      let bond_types : List (List String) := t8
+      let unique_bond_types : List (List String) := (Py6.fromkeysList bond_types)
+      let t10 ← (Py.listMapM? bond_types (fun bt => (do let t9 ← (Py6.listIndex? unique_bond_types bt); pure t9)))
+      let atoms_bond_types' : List Nat := t10
+      pure (atoms_bonds, atoms_bond_types')
+  | none =>
+    let t13 ← (Py.listMapM? atoms_bonds (fun atup => (do let t12 ← (Py.listMapM? atup (fun a => (do let t11 ← (uff_atom_types[a]?); pure t11))); pure (Code.typekey t12))))
+    let bond_types : List (List String) := t13
+    let unique_bond_types : List (List String) := (Py6.fromkeysList bond_types)
+    let t15 ← (Py.listMapM? bond_types (fun bt => (do let t14 ← (Py6.listIndex? unique_bond_types bt); pure t14)))
+    let atoms_bond_types' : List Nat := t15
+    pure (atoms_bonds, atoms_bond_types')
+
+/-- translated from `assign_angle_types` in mofun/rough_uff.py (FRAGMENT: the type-numbering slice — the `exclude` guard (`len(exclude) >= 3`, exclude a python set) with `delete_if_all_in_set`, the keys `typekey([uff_atom_types[a] for a in atup])`, their first-seen unique list, the position of every key in it; the result is (atoms.angles, atoms.angle_types) right after the assignment of atoms.angle_types; `none` = IndexError of `uff_atom_types[a]` / ValueError of `list.index`) -/
+def assignAngleTypeIds (atoms_angles : List (List Nat)) (uff_atom_types : List String) (exclude : Option (List Nat)) : Option ((List (List Nat)) × (List Nat)) := do
+  match exclude with
+  | some exclude =>
+    if (Py.setLen exclude) ≥ 3 then
+      let atoms_angles' : List (List Nat) := (Code.deleteIfAllInSet atoms_angles exclude)
+      let t3 ← (Py.listMapM? atoms_angles' (fun atup => (do let t2 ← (Py.listMapM? atup (fun a => (do let t1 ← (uff_atom_types[a]?); pure t1))); pure (Code.typekey t2))))
+      let angle_types : List (List String) := t3
+      let unique_angle_types : List (List String) := (Py6.fromkeysList angle_types)
+      let t5 ← (Py.listMapM? angle_types (fun a => (do let t4 ← (Py6.listIndex? unique_angle_types a); pure t4)))
+      let atoms_angle_types' : List Nat := t5
+      pure (atoms_angles', atoms_angle_types')
+    else
+      let t8 ← (Py.listMapM? atoms_angles (fun atup => (do let t7 ← (Py.listMapM? atup (fun a => (do let t6 ← (uff_atom_types[a]?); pure t6))); pure (Code.typekey t7))))
+      let angle_types : List (List String) := t8
+      let unique_angle_types : List (List String) := (Py6.fromkeysList angle_types)
+      let t10 ← (Py.listMapM? angle_types (fun a => (do let t9 ← (Py6.listIndex? unique_angle_types a); pure t9)))
+      let atoms_angle_types' : List Nat := t10
+      pure (atoms_angles, atoms_angle_types')
+  | none =>
+    let t13 ← (Py.listMapM? atoms_angles (fun atup => (do let t12 ← (Py.listMapM? atup (fun a => (do let t11 ← (uff_atom_types[a]?); pure t11))); pure (Code.typekey t12))))
+    let angle_types : List (List String) := t13
+    let unique_angle_types : List (List String) := (Py6.fromkeysList angle_types)
+    let t15 ← (Py.listMapM? angle_types (fun a => (do let t14 ← (Py6.listIndex? unique_angle_types a); pure t14)))
+    let atoms_angle_types' : List Nat := t15
+    pure (atoms_angles, atoms_angle_types')
 
 end Mofun.Generated.Code6
